@@ -77,6 +77,7 @@ type Ctx struct {
 	wfDone   map[*Term]bool
 	aliveDone map[[2]*Term]bool
 	curMk    *markerInfo
+	inUse    map[*ssa.Function]int
 	reads    []readEvent
 	prefer   []*Term
 	splits   []*Term // boolean terms worth a case split (append in place / reallocated)
